@@ -14,7 +14,7 @@ from vf import core, scenarios, worlds
 from vf.worlds import IRR, World, synth_field
 
 HMIN, HMAX = 60.0, 135.0
-LIMITS = {"narrow": (35.0, 5.0), "wide": (500.0, -500.0)}
+LIMITS = {"narrow": (35.0, 5.0), "wide": (500.0, -500.0), "zero_min": (35.0, 0.0), "zero_max": (0.0, -35.0)}
 TOL = 1.0e-3
 
 KIND = {"nearsquare": "1d", "rectangle": "1d", "birectangle": "2d", "bizoned": "zd", "constrained": "zd", "rowwise": "rw"}
@@ -37,14 +37,50 @@ def manager_for(case):
     geo = case.get("geo")
     key = (method, flow, core.canon(geo))
     m = _MGR.get(key)
+    if case.get("pre") is not None:
+        m = None  # history family: always a fresh manager, configured through the public setters only
     if m is None:
         m = scenarios.build_manager(method, flow=flow, flow_rate=case.get("flow_rate", 0.5), geo=geo, hmax=HMAX, hmin=HMIN)
-        _MGR[key] = m
+        if case.get("pre") is None:
+            _MGR[key] = m
+    mxa, mna = LIMITS[case["world"].get("limits", "narrow")] if "world" in case else LIMITS["narrow"]
+    if case.get("pre") is not None:
+        # earlier use of the same manager: configure, design, run once, then reconfigure with the public setters and design again
+        pre = case["pre"]
+        m.set_simulation_parameters(num_months=24, max_eft=mxa, min_eft=mna, max_height=HMAX, min_height=HMIN, max_boreholes=pre.get("cap"),
+                                    continue_if_design_unmet=bool(pre.get("cont", False)))
+        m.set_design(flow_rate=case.get("flow_rate", 0.5), flow_type_str=flow)
+        _inject(m, case)
+        worlds.begin(World(case["world"], HMIN, HMAX, mxa, mna))
+        so = sys.stdout
+        sys.stdout = io.StringIO()
+        try:
+            try:
+                m.find_design()
+            except ValueError:
+                pass
+        finally:
+            sys.stdout = so
+            worlds.end()
+        if case.get("cap") is None and not case.get("cont"):
+            m.set_simulation_parameters(num_months=24, max_eft=mxa, min_eft=mna, max_height=HMAX, min_height=HMIN)  # defaults, as a user would
+        else:
+            m.set_simulation_parameters(num_months=24, max_eft=mxa, min_eft=mna, max_height=HMAX, min_height=HMIN, max_boreholes=case.get("cap"),
+                                        continue_if_design_unmet=bool(case.get("cont", False)))
+        m.set_design(flow_rate=case.get("flow_rate", 0.5), flow_type_str=flow)
+        _inject(m, case)
+        return m
     sp = m._simulation_parameters
     sp.max_boreholes = case.get("cap")
-    sp.max_EFT_allowable, sp.min_EFT_allowable = LIMITS[case["world"].get("limits", "narrow")] if "world" in case else LIMITS["narrow"]
+    sp.max_EFT_allowable, sp.min_EFT_allowable = mxa, mna
     sp.continue_if_design_unmet = bool(case.get("cont", False))
     m._borehole.H = 96.0
+    _inject(m, case)
+    return m
+
+
+def _inject(m, case):
+    method = case["method"]
     syn = case.get("synthetic")
     d = m._design
     if syn is not None:
@@ -54,7 +90,6 @@ def manager_for(case):
             d.coordinates_domain, d.fieldDescriptors = lists[0], descs[0]
         else:
             d.coordinates_domain_nested, d.fieldDescriptors = lists, descs
-    return m
 
 
 def domain_lists(m, method):
@@ -66,8 +101,12 @@ def domain_lists(m, method):
 
 # ------------------------------------------------------------------ one execution
 
+_LAST = {}
+
+
 def execute(case):
     m = manager_for(case)
+    _LAST["m"] = m
     method = case["method"]
     lists = domain_lists(m, method) if KIND[method] != "rw" else []
     mxa, mna = LIMITS[case["world"].get("limits", "narrow")]
@@ -159,9 +198,11 @@ def is_escape(case, obs, wc):
         return "fallback_smallest"
     # a candidate at max height that fails there, in a world whose largest allowed candidate fails at max height
     # (which candidate is returned is C02's business, not C01's).  Nested searches with a cap only look at lists whose
-    # last field is below the cap, so for them any failing field at max height under continue=True counts as the escape.
+    # last field is below the cap, and the bi-zoned list is not sorted by count, so "last index below the cap" is not the
+    # largest allowed field there: for the 2-D / zoned searches with a cap any failing field at max height under
+    # continue=True counts as the escape (observation O3 / finding F14 in DESIGN.md).
     if obs["H"] == HMAX and obs["world"].excess(obs["sel_coords"], HMAX) > 0:
-        if wc["largest_lt_fails"] or (len(obs["wlists"]) > 1 and case.get("cap") is not None):
+        if wc["largest_lt_fails"] or (KIND[case["method"]] != "1d" and case.get("cap") is not None):
             return "fallback_largest"
     return None
 
@@ -296,7 +337,7 @@ def judge(case, obs):
             break
     # ---- C20: with a system flow the per-borehole flow seen by every GHE is V*rho/(1000 nbh)
     if case.get("flow") == "system":
-        rho = _MGR[(method, "system", core.canon(case.get("geo")))]._fluid.rho
+        rho = _LAST["m"]._fluid.rho
         vsys = case.get("flow_rate", 0.5)
         for n_, vs, mf in obs["ghe_inits"]:
             if abs(vs - vsys) > 1e-12 * vsys or abs(mf - vsys / n_ / 1000.0 * rho) > 1e-12 * mf:
@@ -304,7 +345,7 @@ def judge(case, obs):
                   f"{vsys}, {vsys / n_ / 1000.0 * rho}", observed=[vs, mf])
                 break
     elif case.get("flow", "borehole") == "borehole":
-        rho = _MGR[(method, "borehole", core.canon(case.get("geo")))]._fluid.rho
+        rho = _LAST["m"]._fluid.rho
         vb = case.get("flow_rate", 0.5)
         for n_, vs, mf in obs["ghe_inits"]:
             if abs(vs - vb * n_) > 1e-12 * vs or abs(mf - vb / 1000.0 * rho) > 1e-12 * mf:
@@ -482,6 +523,26 @@ def expand(chunk):
                             yield {"fam": fam, "method": method, "synthetic": [counts], "cap": cap, "cont": cont,
                                    "flow": chunk.get("flow", "borehole"),
                                    "world": {"kind": "roots", "roots": roots, **wv}, "t": t, "cls": cls}
+    elif fam == "A1Z":
+        n = chunk["n"]
+        counts = list(range(1, n + 1))
+        for t in range(0, n + 1):
+            for cls in (("B", "I5") if t < n else ("I5",)):
+                roots = roots_monotone(0, counts, t, cls, {})
+                for wv in ({"slope": 0.05, "side": "min", "shape": "linear", "limits": "zero_min"}, {"slope": 0.05, "side": "max", "shape": "hyper", "limits": "zero_max"}):
+                    for cont in (False, True):
+                        yield {"fam": fam, "method": method, "synthetic": [counts], "cap": None, "cont": cont, "flow": chunk.get("flow", "borehole"),
+                               "world": {"kind": "roots", "roots": roots, **wv}, "t": t, "cls": cls}
+    elif fam == "A7":
+        n = chunk["n"]
+        counts = list(range(1, n + 1))
+        for t in range(0, n + 1):
+            for cls in (("B", "I5") if t < n else ("I5",)):
+                roots = roots_monotone(0, counts, t, cls, {})
+                for pre_cap, cap in ((None, None), (3, None), (None, 3), (3, 4)):
+                    for pre_cont, cont in ((False, False), (True, False), (False, True), (True, True)):
+                        yield {"fam": fam, "method": method, "synthetic": [counts], "cap": cap, "cont": cont, "pre": {"cap": pre_cap, "cont": pre_cont},
+                               "flow": chunk.get("flow", "borehole"), "world": {"kind": "roots", "roots": roots, **WVARS[0]}, "t": t, "cls": cls}
     elif fam == "A2":
         n = chunk["n"]
         counts = list(range(1, n + 1))
